@@ -267,6 +267,17 @@ def loss_combinations(ctx, rep, clause):
             if kind == 'assign' and isinstance(payload, ast.ListComp) and \
                     any('findall(' in norm_stmt(g.iter) for g in payload.generators):
                 per_site = True
+            # ... or the loss repeated once per match: repeat(loss, len(findall(..))) / [loss] * len(findall(..))
+            if kind == 'assign':
+                for y in ast.walk(payload):
+                    if isinstance(y, ast.Call) and norm_stmt(y.func).split('.')[-1] == 'repeat' and len(y.args) == 2 and \
+                            norm_stmt(y.args[1]).startswith('len(') and 'findall(' in norm_stmt(y.args[1]):
+                        per_site = True
+                    if isinstance(y, ast.BinOp) and isinstance(y.op, ast.Mult) and any(
+                            norm_stmt(side).startswith('len(') and 'findall(' in norm_stmt(side)
+                            for side in (y.left, y.right)) and any(isinstance(side, ast.List) and len(side.elts) == 1
+                                                                   for side in (y.left, y.right)):
+                        per_site = True
     ob(rep, 'EXH', f.fq, 'combinations are drawn from the per-site list (one entry per matching site)', per_site,
        'one entry per regex match',
        f'combinations are drawn from a list that does not receive one entry per matching site: '
